@@ -279,7 +279,7 @@ def corpus():
 def cases(rng, tier, n=None):
     out = []
     thorough = tier == 'thorough'
-    for _ in range(3000 if thorough else 300):
+    for _ in range(6000 if thorough else 300):
         npitch = rng.randint(1, 4)
         m = 2 * npitch + 1
         T = rng.choice([1, 1, 2, 3, 4, 6, 9, 14]) if not thorough else rng.choice([1, 2, 3, 4, 6, 9, 14, 40])
@@ -296,7 +296,7 @@ def cases(rng, tier, n=None):
         out.append({'op': 'melody_vit_z', 'input': {'pitches': sorted(rng.sample(range(128), npitch)),
                                                      'trans': _rand_mat(rng, m, m, lo, 0.0),
                                                      'frames': _rand_mat(rng, T, m, lo, 0.0)}})
-    for _ in range(600 if thorough else 80):
+    for _ in range(1200 if thorough else 80):
         nc = rng.randint(1, 3)
         n_states = 12 * nc
         T = rng.choice([1, 2, 3, 5, 8])
@@ -304,11 +304,11 @@ def cases(rng, tier, n=None):
         out.append({'op': 'chord_vit', 'input': {'nc': nc, 'kc': _rand_mat(rng, 12, nc, lo, 0.05),
                                                   'trans': _rand_mat(rng, n_states, n_states, lo, 0.1),
                                                   'frames': _rand_mat(rng, T, nc, lo, 0.05)}})
-    for _ in range(3000 if thorough else 300):
+    for _ in range(8000 if thorough else 300):
         notes, total = _gen_melody_notes(rng, rng.randint(1, 40 if thorough else 9))
         out.append({'op': 'note_frames', 'input': {'notes': notes, 'total': total}})
     # writer loops
-    for _ in range(2500 if thorough else 250):
+    for _ in range(5000 if thorough else 250):
         T = rng.randint(1, 64 if thorough else 12)
         figs, keys = _gen_path(rng, T, 97, 12)
         mode = rng.choice(['fixed', 'fixed', 'beats', 'beats_q'])
@@ -320,11 +320,11 @@ def cases(rng, tier, n=None):
         else:
             beats, total = _gen_beats(rng, T)
             out.append({'op': 'chord_write', 'input': {'mode': mode, 'beats': beats, 'total': total, 'figs': figs, 'keys': keys}})
-    for _ in range(2500 if thorough else 250):
+    for _ in range(6000 if thorough else 250):
         notes, total = _gen_melody_notes(rng, rng.randint(1, 30 if thorough else 7))
         out.append({'op': 'melody_write', 'input': {'notes': notes, 'total': total, 'events': _gen_events(rng, notes, total)}})
     # end to end
-    for i in range(150 if thorough else 14):
+    for i in range(400 if thorough else 24):
         T = rng.randint(1, 64 if thorough and i % 5 == 0 else 10)
         params = dict(CHORD_PARAMS[rng.randrange(4 if thorough else 2)] or {})
         params['chord_note_concentration'] = rng.choice([100.0, 100.0, 10.0, 37.5])
@@ -341,13 +341,24 @@ def cases(rng, tier, n=None):
             inp.update({'mode': rng.choice(['beats', 'beats_q']), 'beats': beats, 'total': total,
                         'notes': _gen_chord_notes(rng, ft, total)})
         out.append({'op': 'chords_e2e', 'input': inp})
-    for i in range(1500 if thorough else 150):
+    for i in range(4000 if thorough else 150):
         notes, total = _gen_melody_notes(rng, rng.randint(1, 100 if thorough and i % 10 == 0 else 12))
         out.append({'op': 'melody_e2e', 'input': {'notes': notes, 'total': total, 'k': rng.randint(1, 11),
                                                    'params': _gen_melody_params(rng)}})
     if thorough:
         for _ in range(2):
             out.append({'op': 'chord_vit_full', 'input': {'seed': rng.randrange(10 ** 6), 'T': 3}})
+        # exhaustive small scopes for the writer loops: every event path of length 5 over {rest, onset/sustain of 2
+        # pitches} on a fixed 5-frame sequence (5^5 = 3125), every chord path of length <= 6 over 3 figures (1092)
+        fixed = [[60, 0, 64 * GRID, 0, 0, 0], [67, 32 * GRID, 96 * GRID, 1, 0, 0], [60, 96 * GRID, 128 * GRID, 0, 0, 0]]
+        kinds = [[0, 0], [1, 60], [2, 60], [1, 67], [2, 67]]
+        for evs in itertools.product(kinds, repeat=5):
+            out.append({'op': 'melody_write', 'input': {'notes': fixed, 'total': 160 * GRID, 'events': [list(e) for e in evs]}})
+        g = {'num': 4, 'den': 4, 'spq': 4, 'qpm': 120, 'cpb': None, 'spc': 2 ** 40, 'steps_per_chord': 8, 'mode': 'fixed'}
+        for T in range(1, 7):
+            for figs in itertools.product([0, 1, 50], repeat=T):
+                c = dict(g); c.update({'total': T * 2 ** 40, 'figs': list(figs), 'keys': [(f + i) % 2 for i, f in enumerate(figs)]})
+                out.append({'op': 'chord_write', 'input': c})
     if n is not None:
         rng.shuffle(out)
         out = out[:n]
@@ -673,6 +684,13 @@ def _impl_melody_e2e(a):
         # without an onset of its pitch
         _, has_onsets, _, _ = mi.sequence_note_frames(_melody_proto(a['notes'], a['total'], shift=shift))
         struct_ok = bool(np.all(np.isneginf(frame_ll[:, 1:len(pitches) + 1][~has_onsets])))
+        # hypothesis of theorem C19_melody_assertion_never_fires: a sustain state is entered with log-probability -inf
+        # from every state other than the onset / sustain state of its own pitch
+        k = len(pitches)
+        for j in range(k + 1, 2 * k + 1):
+            for i in range(2 * k + 1):
+                if i != j and i + k != j and not np.isneginf(trans_ll[i, j]):
+                    struct_ok = False
         init = trans_ll[0, :] + frame_ll[0, :]
         frames = [frame_ll[t] for t in range(1, frame_ll.shape[0])]
         attained = _float_path_score(init, trans_ll, frames, path)
@@ -976,7 +994,7 @@ def oracle(case, io):
                     return {'kind': 'melody-e2e-note-not-at-real-onset', 'note': [s, e, p],
                             'at_sequence_end': any(x[0] == p and x[1] == a['total'] for x in mel)}
             if not r['struct_ok']:
-                return {'kind': 'melody-e2e-onset-state-possible-without-onset'}
+                return {'kind': 'melody-e2e-zero-probability-structure-missing'}
             if r['frames']:
                 times = [0] + sorted(set([x[1] for x in mel] + [x[2] for x in mel]) - {0, a['total']})
                 v = _readback('melody-e2e', r['notes'], r['events'], times)
